@@ -48,6 +48,13 @@ def run(ctx, rep):
     rep.rule("R10-COUNTER", "profiling array of the debug machine has a slot for every builtin discriminant and step kind", floor=2)
     rep.guarded("R10-NARROW", lambda: narrow(ctx, rep))
     rep.guarded("R10-COUNTER", lambda: counter(ctx, rep))
+    # two table rules owned by C04 / C02 discharge panic sites of this audit (the any_constructor unwrap of UnConstrData, the
+    # folder's result().unwrap()); they are re-run here so that C10's verdict does not rest on another check having been run
+    from . import c04, c02
+    rep.rule("R04-TAGS", "constructor-tag range maps are mutual inverses and agree with Data::constr (discharges UnConstrData's any_constructor.unwrap())", floor=8)
+    rep.guarded("R04-TAGS", lambda: c04.r_tags(ctx.shape, rep))
+    rep.rule("R02-FOLD", "every value-dependent failure exit of a foldable builtin is excluded by a guard of is_error_safe (discharges the constant folder's result().unwrap())", floor=60)
+    rep.guarded("R02-FOLD", lambda: c02.r_fold(ctx.shape, rep, btab.BuiltinTables(ctx.shape)))
     secs = {}
     rep.guarded("R10-PANIC-EVAL", lambda: secs.update(panic_sections(fl)))
     if "C10-eval" in secs:
